@@ -25,7 +25,7 @@ def cross_type_events(env, rng, thorough):
         defcat[qt] = db.GetDefaultCategory(base[qt])
     pairs = [(a, b) for a in qts for b in qts if a != b]
     if not thorough:
-        pairs = rng.sample(pairs, 2500)
+        pairs = rng.sample(pairs, 2000)
     # legacy spellings of units (target written in a legacy spelling of a unit of ANOTHER quantity type)
     from barril.units import unit_database as _udb
     legacy_of = {}
@@ -277,5 +277,5 @@ def main(tier):
     rep.count(evaluations=stats2["replayed"], nontrivial=stats2["replayed"], traces=stats2["replayed"])
     return qalg.finish(rep, env, rule="(a) every transition of the bounded quantity-algebra machine whose last step is a sum, ordering or "
                        "conversion (rejected ones included) replayed on real Scalars; (b) incompatible calls over ordered pairs of "
-                       "different quantity types of the real table (quick: 2500 seeded pairs x 17 calls, thorough: all pairs) validated by "
+                       "different quantity types of the real table (quick: 2000 seeded pairs x 39 calls, thorough: all pairs) validated by "
                        "TLC; (c) valid operations replayed after the failures")
